@@ -264,13 +264,14 @@ pub fn run(ctx: &Ctx) {
     // 5d. attribute names the XML specifications give a meaning to, with the values those specifications
     // name, around white-space-only character data: the value must still not matter
     {
-        let names = ["xml:space", "xml:lang", "xml:id", "xmlns", "xmlns:p", "space", "id"];
-        let values = ["default", "preserve", "", "en", "http://x/y", " "];
+        let names = ["xml:space", "xml:lang", "xml:id", "xmlns", "xmlns:p", "space", "id", "xsi:nil", "p:nil", "nil", "xsi:type", "xsi:schemaLocation", "xsi:noNamespaceSchemaLocation", "type"];
+        let values = ["default", "preserve", "", "en", "http://x/y", " ", "true", "1", "false", "0", "xs:string"];
         let templates = [
             "<r N=\"V\"> <a> </a></r>",
             "<r><a N=\"V\"> </a><a N=\"V\"><b> </b></a></r>",
             "<r N=\"V\"><a>t</a><a> </a><c N=\"V\"/><c N=\"V\"> </c></r>",
             "<r><a N=\"V\"><b>\n  </b></a><a><b>t</b></a></r>",
+            "<r><a N=\"V\"><b/></a><d N=\"V\"/><e N=\"V\">t</e></r>",
         ];
         let mut n_special = 0u64;
         for (ti, t) in templates.iter().enumerate() {
@@ -278,7 +279,7 @@ pub fn run(ctx: &Ctx) {
                 let base = t.replace('N', n).replace('V', "v");
                 for (vi, v) in values.iter().enumerate() {
                     let other = t.replace('N', n).replace('V', v);
-                    n_special += cmp.same("values", &[base.clone()], &[other], ((ti * 100 + ni * 10 + vi) as u64) | (3 << 40), json!(null));
+                    n_special += cmp.same("values", &[base.clone()], &[other], ((ti * 10_000 + ni * 100 + vi) as u64) | (3 << 40), json!(null));
                 }
             }
         }
